@@ -105,7 +105,9 @@ Definition parse_int (s : bytes) (bits : Z) : option Z :=
 (* isNumeric(sys, s) *)
 Definition is_numeric (sys : system) (s : bytes) : option Z :=
   let leading_zero := match s with 48%N :: _ :: _ => true | _ => false end in
+  let signed := match s with 45%N :: _ => true | 43%N :: _ => true | _ => false end in
   if leading_zero && negb (sys_eqb sys SNPM) then None
+  else if signed then None
   else parse_int s (if sys_eqb sys SNuGet then 32 else 64).
 
 (* compareNugetPrerelease: case-insensitive (ASCII) bytewise; a proper prefix sorts first *)
